@@ -640,6 +640,12 @@ func (se *SpecEnv) call(e *SCall) SVal {
 		return SVal{T: ex.load(se.st, se.pc, a, t), Ty: t, A: a}
 	case "isnil":
 		x := se.value(se.eval(e.Args[0]))
+		switch x.Sort {
+		case SIface:
+			return SVal{T: eq(app(SInt, "itag", x), intLit(0))}
+		case SSlice:
+			return SVal{T: eq(sBase(x), tNull)}
+		}
 		return SVal{T: eq(x, nilOf(x.Sort))}
 	case "closed":
 		x := se.value(se.eval(e.Args[0]))
